@@ -37,6 +37,7 @@ func unaryF(req []byte) []byte {
 //   early:K         return after receiving K messages, without reading the rest
 //   fail:K:CODE     consume K messages, then return status CODE with message "boom <K>"
 //   hold            block until the stream's context is done, return its error
+//   holdhdr         as hold, then SendHeader (which may fail on the finished stream), then return
 //   badsend:K       consume K messages, fail one SendMsg in the codec, return nil
 //
 // Messages the handler originates are "s<i>" (i from 0).
@@ -187,6 +188,12 @@ func InstallPrograms(impl *Impl, log *HandlerLog, gate func(tag string)) {
 			return finish(status.Error(codes.Code(arg(2)), "boom "+strconv.Itoa(arg(1))))
 		case "hold":
 			<-ctx.Done()
+			return finish(ctx.Err())
+		case "holdhdr":
+			// as hold, but once its caller has gone the handler still tries to send its headers explicitly
+			// (the write may fail: the stream's context is done) before it returns
+			<-ctx.Done()
+			ss.SendHeader(metadata.Pairs("late", "1"))
 			return finish(ctx.Err())
 		case "badsend":
 			// consume K messages, try to send a value the codec cannot encode (SendMsg fails, nothing
